@@ -572,6 +572,13 @@ class C09(CheckBase):
 
     # ---------------------------------------------------------------- execute
     def execute(self, trace):
+        undo = self.fs.install_global_seam(patch_getcwd=False)    # storage reached by another route than ntv2reader.open
+        try:
+            return self._execute(trace)
+        finally:
+            undo()
+
+    def _execute(self, trace):
         env = self.env
         log = EventLog()
         T = trace['threads']
